@@ -68,6 +68,7 @@ Section Proofs.
       destruct (update_time clock_at o (v_reads (w_v w))) as [t reads]. inversion H; subst. left. reflexivity.
     - inversion H; subst; left; reflexivity.
     - destruct (w_validate (wo_writer o)); [inversion H; subst; left; reflexivity|].
+      destruct (String.eqb (apply_id id0) "" && wo_gen_id o); [inversion H; subst; left; reflexivity|].
       destruct (c_get_fn m_empty false o (apply_id id0) false (c_items (w_c w))) as [[b|code] cr]; inversion H; subst; left; reflexivity.
     - destruct (change_fn m_eqb m_empty w_merge o msg old); [|inversion H; subst; left; reflexivity].
       destruct (c_get_fn m_empty false o (apply_id id0) cr (c_items (w_c w))) as [[b|code] cr']; [|inversion H; subst; left; reflexivity].
@@ -94,7 +95,6 @@ Section Proofs.
 
   (* ================= all programs, all schedules ================= *)
   Variable prog : list call.
-  Hypothesis prog_ok : forall t c, nth_error prog t = Some c -> call_ok c.
   Variable v0 : vstate M.
   Variable c0 : cstate M.
   Hypothesis c0_sorted : sorted (c_items c0).
@@ -141,7 +141,7 @@ Section Proofs.
     destruct (trans c p (st_w s)) as [[[p' w'] eff]|] eqn:T; [|exfalso; apply Hv; reflexivity].
     destruct (gate_open _ _ _ _ _) eqn:G; [|exfalso; apply Hv; reflexivity].
     simpl in *. destruct (i_local I _ P Q) as [Hwf _].
-    pose proof (trans_lin m_eqb m_empty w_validate w_merge clock_at str_ltb idfun m_eqb_eq c p (st_w s) (prog_ok _ P) Hwf T) as L.
+    pose proof (trans_lin m_eqb m_empty w_validate w_merge clock_at str_ltb idfun m_eqb_eq c p (st_w s) Hwf T) as L.
     destruct (trans_commit _ _ _ (i_sorted I) T) as [Hsame|[(id0 & msg & o & nv & e & -> & -> & Hoth)|(id0 & o & b & e & -> & -> & -> & Hoth)]].
     - exfalso. apply Hv. apply Hsame.
     - assert (Eid : apply_id id0 = id).
@@ -355,7 +355,7 @@ Section Proofs.
     intros m Hin. destruct (E _ Hin) as [Hb (e & He & Hk & Hc)]. split; [exact Hb|].
     exists e. split; [exact He|]. split; [exact Hk|]. split; [|exact Hc].
     (* the Delete itself lost: it is not in the witness *)
-    intros Et. pose proof (@returned_is_linearized _ m_eqb m_empty _ w_validate w_merge _ clock_at str_ltb idfun m_eqb_eq ltb_irrefl ltb_trans ltb_total prog prog_ok v0 c0 c0_sorted sched t _ _ P Q) as W.
+    intros Et. pose proof (@returned_is_linearized _ m_eqb m_empty _ w_validate w_merge _ clock_at str_ltb idfun m_eqb_eq ltb_irrefl ltb_trans ltb_total prog v0 c0 c0_sorted sched t _ _ P Q) as W.
     simpl in W. assert (In e (wit_of t (st_wit (run sched s0)))).
     { unfold wit_of. apply filter_In. split; [exact He|]. apply Nat.eqb_eq. exact Et. }
     rewrite W in H. destruct H.
